@@ -33,8 +33,10 @@ use metrique_writer::entry::WithGlobalDimensions;
 use metrique_writer::format::{Format, FormatExt};
 use metrique_writer::stream::EntryIoStreamExt;
 use metrique_writer_core::config::{AllowSplitEntries, AllowUnroutableEntries, EntryDimensions};
-use metrique_writer_core::entry::{BoxEntry, SampleGroupElement};
-use metrique_writer_core::value::{FormattedValue, ForceFlag, MetricFlags, ValueFormatter, WithDimensions};
+use metrique_writer_core::entry::{BoxEntry, EmptyEntry, SampleGroupElement};
+use metrique_writer_core::value::{
+    FlagConstructor, FormattedValue, ForceFlag, MetricFlags, MetricOptions, ValueFormatter, WithDimensions,
+};
 use metrique_writer_core::{
     Entry, EntryConfig, EntryIoStream, EntryWriter, IoStreamError, Observation, Unit, ValidationError, Value,
     ValueWriter,
@@ -59,6 +61,33 @@ type CowStr = Cow<'static, str>;
 enum Mode {
     High,
     NoMetric,
+    /// a `FlagConstructor` that constructs `MetricFlags::empty()` (a switched-off / conditional flag)
+    Empty,
+}
+
+/// `ForceFlag<T, EmptyCtor>` forces nothing: whatever flags `T` carries must survive
+struct EmptyCtor;
+impl FlagConstructor for EmptyCtor {
+    fn construct() -> MetricFlags<'static> {
+        MetricFlags::empty()
+    }
+}
+
+/// A `MetricOptions` type of the harness's own (not the EMF one). It merges with itself only; merging it
+/// with the EMF options makes `MetricFlags::try_merge` panic by design, so it is used only in the fixed
+/// `X` cases, never in generated stacks.
+#[derive(Debug)]
+struct ForeignOpt;
+impl MetricOptions for ForeignOpt {
+    fn try_merge(&self, other: &dyn MetricOptions) -> Option<MetricFlags<'static>> {
+        (other as &dyn Any).downcast_ref::<ForeignOpt>().map(|_| MetricFlags::upcast(&ForeignOpt))
+    }
+}
+struct ForeignCtor;
+impl FlagConstructor for ForeignCtor {
+    fn construct() -> MetricFlags<'static> {
+        MetricFlags::upcast(&ForeignOpt)
+    }
 }
 
 /// entry-level wrappers (innermost first in a stack)
@@ -109,6 +138,8 @@ enum Case {
     /// ONE long-lived stack of stream / format adapters receives a sequence of entries (`true` = boxed);
     /// the recording format below answers from the script (`o`/`v`/`i`, then `o`)
     Seq(Vec<char>, Vec<W>, Vec<(bool, GenEntry)>),
+    /// fixed scenario number `n` with the harness's own (non-EMF) `MetricOptions` type, see `foreign_case`
+    Foreign(u8),
 }
 
 #[derive(Clone)]
@@ -138,6 +169,7 @@ fn menu_ok(ws: &[VW]) -> bool {
         [VW::Dims(1, _)]
             | [VW::Dims(2, _), VW::Force(Mode::High)]
             | [VW::Force(Mode::NoMetric), VW::Dims(0, _)]
+            | [VW::Force(Mode::High), VW::Force(Mode::Empty)]
             | [VW::Arc_, VW::Some_]
             | [VW::Box_, VW::None_]
             | [VW::CowOwned, VW::Fmt(1)]
@@ -241,6 +273,10 @@ impl Entry for VEntry {
                         [VW::Force(Mode::NoMetric), VW::Dims(0, d)] => {
                             w.value(n, &mk_dims::<_, 0>(ForceFlag::<GVal, NoMetricCtor>::from(b.clone()), d))
                         }
+                        [VW::Force(Mode::High), VW::Force(Mode::Empty)] => w.value(
+                            n,
+                            &ForceFlag::<_, EmptyCtor>::from(ForceFlag::<GVal, HighStorageResolutionCtor>::from(b.clone())),
+                        ),
                         [VW::Arc_, VW::Some_] => w.value(n, &Some(Arc::new(b.clone()))),
                         [VW::Box_, VW::None_] => w.value(n, &None::<Box<GVal>>),
                         [VW::CowOwned, VW::Fmt(1)] => {
@@ -291,12 +327,14 @@ fn mode_ch(m: Mode) -> char {
     match m {
         Mode::High => 'h',
         Mode::NoMetric => 'x',
+        Mode::Empty => 'n',
     }
 }
 fn dec_mode(s: &str) -> Option<Mode> {
     match s {
         "h" => Some(Mode::High),
         "x" => Some(Mode::NoMetric),
+        "n" => Some(Mode::Empty),
         _ => None,
     }
 }
@@ -357,7 +395,7 @@ impl W {
             "Mg" => W::MergeBefore(ent()?),
             "mr" => W::MergeRefAfter(ent()?),
             "mg" => W::MergeRefBefore(ent()?),
-            "Fh" | "Fx" => W::Force(dec_mode(&k[1..])?),
+            "Fh" | "Fx" | "Fn" => W::Force(dec_mode(&k[1..])?),
             "r" => W::Ref,
             "X" => W::Box_,
             "A" => W::Arc_,
@@ -371,7 +409,7 @@ impl W {
                 let (d, deny) = dims_deny()?;
                 W::StreamDims(k.starts_with('P'), d, deny)
             }
-            "Sfh" | "Sfx" => W::StreamForce(dec_mode(&k[2..])?),
+            "Sfh" | "Sfx" | "Sfn" => W::StreamForce(dec_mode(&k[2..])?),
             _ if k.len() == 2 && k.starts_with('D') => W::Dims(k[1..].parse().ok()?, dec_dims(rest)?),
             _ if k.len() == 2 && k.starts_with('W') => {
                 let (d, deny) = dims_deny()?;
@@ -437,7 +475,7 @@ impl VW {
             "cb" => VW::CowBorrowed,
             "o" => VW::Some_,
             "on" => VW::None_,
-            "fh" | "fx" => VW::Force(dec_mode(&k[1..])?),
+            "fh" | "fx" | "fn" => VW::Force(dec_mode(&k[1..])?),
             "t0" => VW::Fmt(0),
             "t1" => VW::Fmt(1),
             _ if k.len() == 2 && k.starts_with('d') => VW::Dims(k[1..].parse().ok()?, dec_dims(rest)?),
@@ -488,6 +526,7 @@ impl Case {
                 s
             }
             Case::Seq(script, ads, es) => seq_line("S", script, ads, es, false),
+            Case::Foreign(n) => format!("X {n}"),
         }
     }
     fn decode(line: &str) -> Option<Case> {
@@ -499,6 +538,8 @@ impl Case {
             Some(Case::Value(dec_val(v.trim())?, segs.map(VW::decode).collect::<Option<Vec<_>>>()?))
         } else if let Some(e) = head.strip_prefix("W ") {
             Some(Case::WEntry(VEntry::decode(e)?, segs.map(W::decode).collect::<Option<Vec<_>>>()?))
+        } else if let Some(n) = line.strip_prefix("X ") {
+            Some(Case::Foreign(n.trim().parse().ok()?))
         } else if line.starts_with("S ") {
             let mut groups = line[2..].split(" ;; ");
             let mut head = groups.next()?.split(" ; ");
@@ -552,6 +593,7 @@ impl Case {
                 s
             }
             Case::Seq(script, ads, es) => seq_line("seq", script, ads, es, true),
+            Case::Foreign(_) => String::new(), // not modelled (documented limit): oracle only
         }
     }
 }
@@ -777,6 +819,10 @@ struct S<N>(PhantomData<N>);
 type Run = S<S<Z>>;
 const RUN: usize = 2;
 
+fn is_empty_entry(e: &GenEntry) -> bool {
+    e.items.is_empty() && e.sample_group.is_empty()
+}
+
 fn cow_dims(d: &[(String, String)]) -> impl Iterator<Item = (CowStr, CowStr)> + '_ {
     d.iter().map(|(k, v)| (Cow::Owned(k.clone()), Cow::Owned(v.clone())))
 }
@@ -805,6 +851,9 @@ fn mk_gdims<E, const N: usize>(e: E, d: &Dims, deny: &[String]) -> WithGlobalDim
 macro_rules! common_arms {
     ($N:ty, $go:ident, $e:ident, $w:ident, $rest:ident, $v:ident, { $($extra:tt)* }) => {
         match $w {
+            // an entry without items and sample group is merged in as the real `EmptyEntry` type
+            W::MergeAfter(o) if is_empty_entry(o) => <$N>::$go($e.merge(EmptyEntry), $rest, $v),
+            W::MergeBefore(o) if is_empty_entry(o) => <$N>::$go(EmptyEntry.merge($e), $rest, $v),
             W::MergeAfter(o) => <$N>::$go($e.merge(o.clone()), $rest, $v),
             W::MergeBefore(o) => <$N>::$go(o.clone().merge($e), $rest, $v),
             W::Dims(0, d) => <$N>::$go(mk_dims::<_, 0>($e, d), $rest, $v),
@@ -814,6 +863,7 @@ macro_rules! common_arms {
             W::GlobalDims(_, d, deny) => <$N>::$go(mk_gdims::<_, 1>($e, d, deny), $rest, $v),
             W::Force(Mode::High) => <$N>::$go(ForceFlag::<_, HighStorageResolutionCtor>::from($e), $rest, $v),
             W::Force(Mode::NoMetric) => <$N>::$go(ForceFlag::<_, NoMetricCtor>::from($e), $rest, $v),
+            W::Force(Mode::Empty) => <$N>::$go(ForceFlag::<_, EmptyCtor>::from($e), $rest, $v),
             W::Some_ => <$N>::$go(Some($e), $rest, $v),
             W::None_ => {
                 let none = if true { None } else { Some($e) };
@@ -1093,6 +1143,7 @@ impl<N: SFuel> SFuel for S<N> {
             return d.format(&mut f);
         };
         match w {
+            W::StreamGlobals(true, g) if is_empty_entry(g) => N::sgo_f(FormatExt::merge_globals(f, EmptyEntry), rest, d),
             W::StreamGlobals(true, g) => N::sgo_f(FormatExt::merge_globals(f, g.clone()), rest, d),
             W::StreamDims(true, dm, deny) => {
                 N::sgo_f(FormatExt::merge_global_dimensions(f, sv_dims::<2>(dm), deny_set(deny)), rest, d)
@@ -1103,12 +1154,16 @@ impl<N: SFuel> SFuel for S<N> {
     fn sgo_s<St: EntryIoStream, D: Drive>(mut s: St, ads: &[&W], d: &mut D) {
         let Some((w, rest)) = ads.split_first() else { return d.stream(&mut s) };
         match w {
+            W::StreamGlobals(false, g) if is_empty_entry(g) => {
+                N::sgo_s(EntryIoStreamExt::merge_globals(s, EmptyEntry), rest, d)
+            }
             W::StreamGlobals(false, g) => N::sgo_s(EntryIoStreamExt::merge_globals(s, g.clone()), rest, d),
             W::StreamDims(false, dm, deny) => {
                 N::sgo_s(EntryIoStreamExt::merge_global_dimensions(s, sv_dims::<1>(dm), deny_set(deny)), rest, d)
             }
             W::StreamForce(Mode::High) => N::sgo_s(ForceFlag::<St, HighStorageResolutionCtor>::from(s), rest, d),
             W::StreamForce(Mode::NoMetric) => N::sgo_s(ForceFlag::<St, NoMetricCtor>::from(s), rest, d),
+            W::StreamForce(Mode::Empty) => N::sgo_s(ForceFlag::<St, EmptyCtor>::from(s), rest, d),
             _ => panic!("{BAD_STACK}"),
         }
     }
@@ -1237,6 +1292,7 @@ macro_rules! value_wrap_arms {
             VW::Dims(_, d) => <$N>::$go(mk_dims::<_, 2>($t, d), $rest, $v),
             VW::Force(Mode::High) => <$N>::$go(ForceFlag::<_, HighStorageResolutionCtor>::from($t), $rest, $v),
             VW::Force(Mode::NoMetric) => <$N>::$go(ForceFlag::<_, NoMetricCtor>::from($t), $rest, $v),
+            VW::Force(Mode::Empty) => <$N>::$go(ForceFlag::<_, EmptyCtor>::from($t), $rest, $v),
             $($extra)*
         })
     };
@@ -1350,12 +1406,13 @@ fn add_dims(v: &mut RVal, d: &Dims) {
 }
 fn merge_flag(v: &mut RVal, m: Mode) {
     if let RVal::Metric { flags, .. } = v {
-        // flags merged: NoMetric wins over HighStorageResolution wins over none
+        // flags merged: NoMetric wins over HighStorageResolution wins over none; forcing nothing changes nothing
         let new = match (flags.as_str(), m) {
-            ("x", _) | (_, Mode::NoMetric) => "x",
-            _ => "h",
+            (old, Mode::Empty) => old.to_string(),
+            ("x", _) | (_, Mode::NoMetric) => "x".to_string(),
+            _ => "h".to_string(),
         };
-        *flags = new.to_string();
+        *flags = new;
     }
 }
 
@@ -1450,6 +1507,46 @@ fn expected_value(plain: &RVal, base: &GVal, ws: &[VW]) -> RVal {
     v
 }
 
+const FOREIGN_CASES: u8 = 6;
+
+/// Fixed scenarios with a `MetricOptions` type that is not the EMF one (never combined with EMF flags:
+/// that panics by design). Returns the description and the flags token of the one metric written.
+fn foreign_case(n: u8) -> Option<(&'static str, String)> {
+    let m = || GVal::Metric { obs: vec![Observation::Unsigned(1)], unit: Unit::None, dims: vec![], flags: GFlags::None };
+    let flags_of = |v: RVal| match v {
+        RVal::Metric { flags, .. } => Some(flags),
+        _ => None,
+    };
+    let first_flags = |r: Recorded| {
+        r.0.into_iter().find_map(|c| match c {
+            RCall::Val(_, RVal::Metric { flags, .. }) => Some(flags),
+            _ => None,
+        })
+    };
+    let entry = || GenEntry { items: vec![GItem::Value("M".into(), m())], sample_group: vec![] };
+    type Foreign<T> = ForceFlag<T, ForeignCtor>;
+    type Empty<T> = ForceFlag<T, EmptyCtor>;
+    Some(match n {
+        0 => ("ForceFlag<V, Foreign>", flags_of(record_value(&Foreign::from(m())))?),
+        1 => ("ForceFlag<ForceFlag<V, Foreign>, Empty>", flags_of(record_value(&Empty::from(Foreign::from(m()))))?),
+        2 => ("ForceFlag<ForceFlag<V, Empty>, Foreign>", flags_of(record_value(&Foreign::from(Empty::from(m()))))?),
+        3 => ("ForceFlag<ForceFlag<V, Foreign>, Foreign>", flags_of(record_value(&Foreign::<Foreign<GVal>>::from(Foreign::<GVal>::from(m()))))?),
+        4 => (
+            "BoxEntry(ForceFlag<ForceFlag<E, Foreign>, Empty>)",
+            first_flags(record_twice(&BoxEntry::new(Empty::from(Foreign::from(entry())))))?,
+        ),
+        5 => {
+            let sink = Rc::new(RefCell::new(RecState { seen: vec![], script: vec![], pos: 0 }));
+            let mut s = Empty::from(Foreign::from(RecFormat(sink.clone()).output_to(Vec::<u8>::new())));
+            let _ = s.next(&entry());
+            let _ = s.next(&entry());
+            let seen = std::mem::take(&mut sink.borrow_mut().seen);
+            ("ForceFlag<ForceFlag<Stream, Foreign>, Empty>, second entry", first_flags(seen.into_iter().nth(1)?)?)
+        }
+        _ => return None,
+    })
+}
+
 /// `Ok(rendered implementation output)` or `Err((class, what, rendered output))`
 fn check(c: &Case) -> Result<String, (String, String, String)> {
     match c {
@@ -1511,6 +1608,18 @@ fn check(c: &Case) -> Result<String, (String, String, String)> {
             }
             Ok(shown)
         }
+        Case::Foreign(n) => match catch(|| foreign_case(*n)) {
+            Ok(Some((what, flags))) => {
+                let want = format!("?{}", hs("MetricFlags(Some(ForeignOpt))"));
+                if flags == want {
+                    Ok(flags)
+                } else {
+                    Err(("foreign-flags".into(), format!("{what}: the metric must carry the foreign flags {want}, got {flags}"), flags))
+                }
+            }
+            Ok(None) => Err(("foreign-flags".into(), "no such scenario / no metric written".into(), "-".into())),
+            Err(p) => Err(("panic-or-error".into(), format!("foreign-flags scenario panicked: {p}"), p)),
+        },
         Case::Seq(script, ads, es) => {
             let (seen, results) = match run_seq(ads, script, es) {
                 Ok(x) => x,
@@ -1598,6 +1707,9 @@ fn valid(c: &Case) -> Result<(), &'static str> {
             }
             valid_stack_with(ws, 1)
         }
+        Case::Foreign(n) => {
+            if *n < FOREIGN_CASES { Ok(()) } else { Err("no such foreign-flags scenario") }
+        }
         Case::Seq(_, ads, es) => {
             if ads.iter().any(|w| !w.is_stream()) {
                 return Err("only stream / format adapters in a sequence case");
@@ -1672,6 +1784,7 @@ fn shrink(c: &Case) -> Case {
             let ws2 = shrink_list(ws, |s| fails(&Case::Value(base.clone(), s.to_vec())));
             Case::Value(base.clone(), ws2)
         }
+        Case::Foreign(n) => Case::Foreign(*n),
         Case::Seq(script, ads, es) => {
             // entries together with the answer they got
             let pairs: Vec<(char, bool, GenEntry)> =
@@ -1718,6 +1831,7 @@ fn site_key(c: &Case, class: &str) -> String {
         Case::Value(_, ws) => ws.iter().map(|w| w.kind()).collect(),
         Case::WEntry(_, ws) => std::iter::once("wrapped-values").chain(ws.iter().map(|w| w.kind())).collect(),
         Case::Seq(_, ads, _) => std::iter::once("sequence").chain(ads.iter().map(|w| w.kind())).collect(),
+        Case::Foreign(_) => vec!["foreign-options"],
     };
     format!("wrappers:{}:{}", class, if kinds.is_empty() { "plain".to_string() } else { kinds.join("/") })
 }
@@ -1728,7 +1842,20 @@ fn site_key(c: &Case, class: &str) -> String {
 const DIM_KEYS: &[&str] = &["AZ", "Region", "Operation", "Dim", "", "k\"q", "é", "A0"];
 const DIM_VALS: &[&str] = &["us-east-1a", "v0", "v1", "", "x y", "\u{1}", "日本"];
 
+thread_local! {
+    /// set while one case of the degenerate ("nasty") stream is generated: empty dimension lists, empty /
+    /// all-naming deny lists, empty merged-in entries (`EmptyEntry`), switched-off flags, `None`s,
+    /// zero-observation metrics, empty sample groups
+    static NASTY: std::cell::Cell<bool> = const { std::cell::Cell::new(false) };
+}
+fn nasty() -> bool {
+    NASTY.with(|n| n.get())
+}
+
 fn gen_dims(rng: &mut Rng) -> Dims {
+    if nasty() && rng.chance(1, 2) {
+        return vec![];
+    }
     let n = match rng.below(8) {
         0 => 0,
         1..=4 => 1,
@@ -1748,6 +1875,15 @@ fn gen_short_string(rng: &mut Rng) -> String {
 }
 
 fn gen_val(rng: &mut Rng) -> GVal {
+    if nasty() && rng.chance(1, 3) {
+        // a flagged metric without observations, with or without own dimensions
+        return GVal::Metric {
+            obs: vec![],
+            unit: gen_unit(rng),
+            dims: if rng.chance(1, 2) { vec![] } else { gen_dims(rng) },
+            flags: *rng.pick(&[GFlags::None, GFlags::HighRes, GFlags::NoMetric]),
+        };
+    }
     match rng.below(10) {
         0..=1 => GVal::Str(gen_short_string(rng)),
         2 => GVal::Error(gen_short_string(rng)),
@@ -1779,6 +1915,10 @@ fn gen_name_any(rng: &mut Rng, i: usize) -> String {
 }
 
 fn gen_base(rng: &mut Rng, max_items: u64) -> GenEntry {
+    if nasty() && max_items <= 3 && rng.chance(1, 2) {
+        // merged-in entries / globals: the empty entry
+        return GenEntry { items: vec![], sample_group: vec![] };
+    }
     let n = rng.range(0, max_items);
     let mut items = vec![];
     for i in 0..n as usize {
@@ -1815,6 +1955,13 @@ fn names_of(e: &GenEntry) -> Vec<String> {
 }
 
 fn gen_deny(rng: &mut Rng, names: &[String]) -> Vec<String> {
+    if nasty() {
+        match rng.below(3) {
+            0 => return vec![],
+            1 => return names.to_vec(), // names every value
+            _ => {}
+        }
+    }
     let mut d = vec![];
     for n in names {
         if rng.chance(1, 3) {
@@ -1832,6 +1979,9 @@ fn gen_deny(rng: &mut Rng, names: &[String]) -> Vec<String> {
 }
 
 fn gen_mode(rng: &mut Rng) -> Mode {
+    if rng.chance(if nasty() { 3 } else { 2 }, 6) {
+        return Mode::Empty;
+    }
     if rng.chance(1, 2) { Mode::High } else { Mode::NoMetric }
 }
 
@@ -1877,7 +2027,7 @@ fn gen_stack_with(rng: &mut Rng, depth: usize, base: &GenEntry, first: usize) ->
                 17 => W::CowBorrowed,
                 18 => W::Some_,
                 19 => {
-                    if rng.chance(1, 4) { W::None_ } else { W::Some_ }
+                    if nasty() || rng.chance(1, 4) { W::None_ } else { W::Some_ }
                 }
                 _ => W::Root,
             };
@@ -1993,7 +2143,8 @@ fn gen_vstack(rng: &mut Rng, depth: usize) -> Vec<VW> {
 }
 
 fn gen_menu_stack(rng: &mut Rng) -> Vec<VW> {
-    match rng.below(8) {
+    match rng.below(9) {
+        8 => vec![VW::Force(Mode::High), VW::Force(Mode::Empty)],
         0 => vec![VW::Dims(1, gen_dims(rng))],
         1 => vec![VW::Dims(2, gen_dims(rng)), VW::Force(Mode::High)],
         2 => vec![VW::Force(Mode::NoMetric), VW::Dims(0, gen_dims(rng))],
@@ -2019,6 +2170,14 @@ fn gen_ventry(rng: &mut Rng) -> VEntry {
 }
 
 fn gen_case(rng: &mut Rng, max_depth: usize) -> Case {
+    let n = rng.chance(1, 5);
+    NASTY.with(|c| c.set(n));
+    let c = gen_case_inner(rng, max_depth);
+    NASTY.with(|c| c.set(false));
+    c
+}
+
+fn gen_case_inner(rng: &mut Rng, max_depth: usize) -> Case {
     if rng.chance(1, 6) {
         gen_seq(rng)
     } else if rng.chance(1, 4) {
@@ -2114,6 +2273,7 @@ fn describe(rep: &mut Report, c: &Case, shown: &str) {
                 rep.bump("wrapped log empty");
             }
         }
+        Case::Foreign(_) => {}
         Case::Seq(script, ads, es) => {
             rep.bump(&format!("sequence length:{}", es.len()));
             rep.bump(&format!("sequence adapters:{}", ads.len()));
@@ -2156,6 +2316,7 @@ fn nontrivial(c: &Case, shown: &str) -> bool {
             !ads.is_empty()
                 && script.iter().position(|c| *c != 'o').map_or(false, |p| es[p + 1..].iter().any(|(_, e)| !e.items.is_empty()))
         }
+        Case::Foreign(_) => true,
     }
 }
 
@@ -2191,6 +2352,10 @@ fn run_batch(rep: &mut Report, args: &Args, cases: &[Case], sample_every: usize)
         if sample_every > 0 && ci % sample_every == 7 % sample_every {
             rep.sample(json!({"case": enc, "impl": shown}));
         }
+        if matches!(c, Case::Foreign(_)) {
+            rep.bump("foreign-options fixed scenarios (oracle only, not modelled)");
+            continue;
+        }
         requests.push(c.model_request());
         impl_out.push(shown);
         idx.push(ci);
@@ -2204,6 +2369,7 @@ fn run_batch(rep: &mut Report, args: &Args, cases: &[Case], sample_every: usize)
                         Case::Value(..) => "wrappers/value-stack",
                         Case::WEntry(..) => "wrappers/entry-stack-over-wrapped-values",
                         Case::Seq(..) => "wrappers/adapter-sequence",
+                        Case::Foreign(..) => "wrappers/foreign-options",
                     };
                     rep.disagreement(comp, &cases[*ci].encode(), got, reply);
                 }
@@ -2253,6 +2419,15 @@ fn systematic_cases(rng: &mut Rng) -> Vec<Case> {
             W::GlobalDims(rng.below(2) as u8, dims(), vec!["Count".into(), "Operation".into(), "AZ".into()]),
             W::Force(Mode::High),
             W::Force(Mode::NoMetric),
+            W::Force(Mode::Empty),
+            W::MergeAfter(GenEntry { items: vec![], sample_group: vec![] }),
+            W::MergeBefore(GenEntry { items: vec![], sample_group: vec![] }),
+            W::Dims(1, vec![]),
+            W::GlobalDims(1, vec![], vec!["Count".into()]),
+            W::GlobalDims(0, dims(), vec![]),
+            W::GlobalDims(1, dims(), names_of(&rich_entry())),
+            W::StreamGlobals(false, GenEntry { items: vec![], sample_group: vec![] }),
+            W::StreamGlobals(true, GenEntry { items: vec![], sample_group: vec![] }),
             W::Ref,
             W::Box_,
             W::Arc_,
@@ -2268,6 +2443,7 @@ fn systematic_cases(rng: &mut Rng) -> Vec<Case> {
             W::StreamDims(false, vec![], Some(vec!["Latency".into()])),
             W::StreamForce(Mode::High),
             W::StreamForce(Mode::NoMetric),
+            W::StreamForce(Mode::Empty),
         ]
     };
     for a in kinds(rng) {
@@ -2296,6 +2472,9 @@ fn systematic_cases(rng: &mut Rng) -> Vec<Case> {
         }
     }
     out.push(Case::WEntry(wbase(), vec![]));
+    for n in 0..FOREIGN_CASES {
+        out.push(Case::Foreign(n));
+    }
     // one long-lived adapter (and every valid pair) x answer scripts with an error first / in the middle
     let adapters: Vec<W> = kinds(rng).into_iter().filter(|w| w.is_stream()).collect();
     let mut stacks: Vec<Vec<W>> = adapters.iter().map(|a| vec![a.clone()]).collect();
@@ -2327,6 +2506,7 @@ fn systematic_cases(rng: &mut Rng) -> Vec<Case> {
             VW::Dims(0, vec![]),
             VW::Force(Mode::High),
             VW::Force(Mode::NoMetric),
+            VW::Force(Mode::Empty),
             VW::Fmt(0),
             VW::Fmt(1),
         ]
@@ -2359,6 +2539,7 @@ fn neighbour(rng: &mut Rng, c: &Case, max_depth: usize) -> Case {
             }
             _ => gen_case(rng, max_depth),
         },
+        Case::Foreign(_) => gen_case(rng, max_depth),
         Case::Seq(script, ads, es) => match rng.below(3) {
             0 => {
                 // same adapters and answers, other entries
